@@ -10,6 +10,7 @@ Record c01case := mkC01 {
   p_ret : list (list ustring);               (* implementation: collect() *)
   p_vars : list (Z * value);                 (* implementation: final plain variables, by variable id *)
   p_stacks : list (Z * list value);          (* implementation: final stack variables *)
+  p_dicts : list (Z * list (ustring * value)); (* implementation: final dictionary (tracking-keyed) variables, entries in insertion order *)
   p_scan : Z; p_match : Z
 }.
 
@@ -35,4 +36,9 @@ Definition c03_state (q : quirks) (c : c01case) : bool :=
   && Nat.eqb (length (vars m)) (length (p_vars c))
   && forallb (fun kv : Z * list value => match lookup (fst kv) (stacks m) with Some v => list_beq value_beq v (snd kv) | None => false end) (p_stacks c)
   && Nat.eqb (length (stacks m)) (length (p_stacks c))
+  && forallb (fun kv : Z * list (ustring * value) =>
+                match lookup (fst kv) (dicts m) with
+                | Some d => list_beq (fun a b : ustring * value => ustr_eqb (fst a) (fst b) && value_beq (snd a) (snd b)) d (snd kv)
+                | None => false end) (p_dicts c)
+  && Nat.eqb (length (dicts m)) (length (p_dicts c))
   && (scan_count mx (st ustring mx o) =? p_scan c) && (match_count mx (st ustring mx o) =? p_match c).
